@@ -185,21 +185,18 @@ def run(ctx):  # noqa: C901, PLR0912, PLR0915
     mf = repo.func(f'{W}.matches_filter')
     ok, why = _matches_filter_shape(mf.node)
     ctx.ob('C14.R5', 'matches_filter shape', ok, why, fi=mf)
-    for fname, pred, it, none_guard in (('_is_type_in_list', 'match_type(ttype, entry)', 'types', False),
-                                        ('_is_scope_in_list', 'match_scope(uri, entry, match_by)', 'srv_sc.text', True)):
+    from engine.boolform import equivalent, function_formula, mk
+    for fname, want, txt in (
+            ('_is_type_in_list', ('exists', 'types', ('atom', 'match_type(ttype, $0)')),
+             'exists offered type: match_type(requested, offered)'),
+            ('_is_scope_in_list', mk('and', [('not', ('atom', 'srv_sc is None')),
+                                             ('exists', 'srv_sc.text', ('atom', 'match_scope(uri, $0, match_by)'))]),
+             'offered scopes present and exists offered scope: match_scope(requested, offered, rule)')):
         fi = repo.func(f'{W}.{fname}')
-        rets = sorted([n for n in walk_no_nested(fi.node) if isinstance(n, ast.Return)], key=lambda n: n.lineno)
-        last = rets[-1].value if rets else None
-        ok = isinstance(last, ast.Call) and call_name(last) == 'any' and isinstance(last.args[0], ast.GeneratorExp) and \
-            unparse(last.args[0].elt) == pred and unparse(last.args[0].generators[0].iter) == it and \
-            not last.args[0].generators[0].ifs
-        if none_guard:
-            ok = ok and len(rets) == 2 and isinstance(rets[0].value, ast.Constant) and rets[0].value.value is False and \
-                'srv_sc is None' in unparse(fi.node)
-        else:
-            ok = ok and len(rets) == 1
-        ctx.ob('C14.R5', f'{fname}', ok, f'{fname} is `exists offered entry: {pred}`' + (' (no offered scopes: no match)'
-                                                                                      if none_guard else ''), fi=fi)
+        got = function_formula(fi.node)
+        ok, counter = equivalent(got, want)
+        ctx.ob('C14.R5', f'{fname}', ok, f'{fname} is `{txt}`' if ok else f'{fname} is {got}, expected `{txt}`', fi=fi,
+               witness={'formula': repr(got)[:300]})
     mt = repo.func(f'{W}.match_type')
     ctx.ob('C14.R5', 'match_type', unparse(mt.node.body[-1]) ==
            'return type1.namespace == type2.namespace and type1.localname == type2.localname',
@@ -231,29 +228,19 @@ def run(ctx):  # noqa: C901, PLR0912, PLR0915
 
 
 def _matches_filter_shape(fn):
-    body = [s for s in fn.body if not (isinstance(s, ast.Expr) and isinstance(s.value, ast.Constant))]
-    if len(body) != 3:
-        return False, f'matches_filter has {len(body)} statements, expected: types block, scopes block, return True'
-    tb, sb, ret = body
-    if not (isinstance(ret, ast.Return) and isinstance(ret.value, ast.Constant) and ret.value.value is True):
-        return False, 'matches_filter does not end with return True'
-
-    def forall(block, guard, it, pred):
-        if not (isinstance(block, ast.If) and unparse(block.test) == guard and not block.orelse and len(block.body) == 1):
-            return f'guard is {unparse(block.test) if isinstance(block, ast.If) else "?"}, expected `{guard}`'
-        lp = block.body[0]
-        if not (isinstance(lp, ast.For) and unparse(lp.iter) == it and len(lp.body) == 1 and not lp.orelse):
-            return f'no plain loop over {it}'
-        inner = lp.body[0]
-        if not (isinstance(inner, ast.If) and unparse(inner.test) == f'not {pred}' and not inner.orelse and
-                len(inner.body) == 1 and isinstance(inner.body[0], ast.Return) and
-                isinstance(inner.body[0].value, ast.Constant) and inner.body[0].value.value is False):
-            return f'loop body is not `if not {pred}: return False` (is: {unparse(inner)[:80]})'
-        return None
-    e1 = forall(tb, 'types is not None', 'types', '_is_type_in_list(ttype, service.types)')
-    e2 = forall(sb, 'scopes is not None', 'scopes.text', '_is_scope_in_list(uri, scopes.MatchBy, service.scopes)')
-    if e1 or e2:
-        return False, f'matches_filter is not `forall requested exists offered`: {e1 or e2}'
+    """Translate matches_filter into a quantified formula (engine.boolform) and compare it with the required one."""
+    from engine.boolform import equivalent, function_formula, mk
+    got = function_formula(fn)
+    want = mk('and', [
+        mk('or', [('atom', 'types is None'),
+                  ('forall', 'types', ('atom', '_is_type_in_list($0, service.types)'))]),
+        mk('or', [('atom', 'scopes is None'),
+                  ('forall', 'scopes.text', ('atom', '_is_scope_in_list($0, scopes.MatchBy, service.scopes)'))]),
+    ])
+    ok, counter = equivalent(got, want)
+    if not ok:
+        return False, (f'matches_filter is not `(no types requested or forall requested type exists offered type) and (no '
+                       f'scopes requested or forall requested scope exists offered scope)`; it is {got} (differs for {counter})')
     return True, ('matches_filter is: (no types requested or forall requested type exists offered type) and (no scopes '
                   'requested or forall requested scope exists offered scope under the requested rule)')
 
@@ -327,6 +314,9 @@ SEEDS = [
          (_W, "        for ttype in types:\n            if not _is_type_in_list(ttype, service.types):\n                return False", "        if not any(_is_type_in_list(ttype, service.types) for ttype in types):\n            return False")),
     seed('scope operands swapped', 'C14.R5',
          (_W, "    return any(match_scope(uri, entry, match_by) for entry in srv_sc.text)", "    return any(match_scope(entry, uri, match_by) for entry in srv_sc.text)")),
+    seed('control: matches_filter rewritten with all()', 'C14.R5',
+         (_W, "    if types is not None:\n        for ttype in types:\n            if not _is_type_in_list(ttype, service.types):\n                return False\n    if scopes is not None:",
+          "    if types is not None and not all(_is_type_in_list(t, service.types) for t in types):\n        return False\n    if scopes is not None:"), control=True),
     seed('empty segments dropped', 'C14.R6',
          (_W, "        src_path_elements = [unquote(elem) for elem in src_path_elements]\n        target_path_elements = [unquote(elem) for elem in target_path_elements]",
           "        src_path_elements = [unquote(elem) for elem in src_path_elements if elem]\n        target_path_elements = [unquote(elem) for elem in target_path_elements if elem]")),
